@@ -558,6 +558,21 @@ def gen_case(rng, mode):
         if rng.random() < 0.2:
             f["filedoc"] = ["// Package p is generated."]
         orig_files.append(f)
+    # a small file whose only declaration is always overridden: the "file left with only imports" branch
+    if rng.random() < 0.2:
+        d = g.func("o", [])
+        d["force"] = True
+        chosen = ["blank"] + (["unsafe"] if rng.random() < 0.5 else [])
+        if "unsafe" in chosen:
+            d["bodyuse"] = ["unsafe"]
+        f = {"imports": [], "decls": [d], "import_group": rng.random() < 0.5, "avail": [], "chosen": chosen}
+        if rng.random() < 0.5:
+            f["filedoc"] = ["//go:linkname docl%d other.docl" % g.uid()]
+            g.features.add("file-emptied-but-linkname-in-file-doc")
+        else:
+            g.features.add("file-emptied")
+        orig_files.append(f)
+        norig += 1
     # methods, in any file
     for s, fi in types:
         for _ in range(rng.choice([0, 1, 2, 3])):
@@ -622,7 +637,7 @@ def gen_case(rng, mode):
                         ov_funcs.append(o)
                         g.features.add("overlay-" + ("init" if d["name"] == "init" else "blank-func"))
                     continue
-                r = rng.random()
+                r = 0.5 if d.get("force") else rng.random()
                 recv = dict(d["recv"]) if d.get("recv") else None
                 if recv and recv["t"] in purged_types:
                     # overlay may only mention methods of a purged type with purge itself (consistent pairs)
@@ -779,7 +794,10 @@ def gen_case(rng, mode):
 # ------------------------------------------------------------------------------------------------
 # the check
 
-THEOREMS = ["init_never_overridden"]
+THEOREMS = ["init_never_overridden", "init_function_kept", "overrides_table", "merge_names", "order_preserved",
+            "values_untouched", "witness_model_values", "witness_spec_values", "const_values_counterexample",
+            "const_orphaned_counterexample", "values_untouched_const_partial", "values_untouched_const_group", "imports_pruned",
+            "imports_pruned_keeps_declarations", "nosync_substitution"]
 
 WITNESS_ORIG = "package p\n\nconst (\n\tA = iota * 10\n\tB\n\tC\n\tD\n)\n"
 WITNESS_OV = "package p\n\nconst B = 1000\n"
@@ -899,6 +917,47 @@ def run(tier, seed):
 
     tie("gen", reqs + wit, answers, cases)
 
+    # the real overlays of compiler/natives/src against synthetic originals
+    p = C.run_gvh(["corpus", os.path.join(C.REPO, "compiler", "natives", "src")], name="gvh_c12")
+    if p.returncode != 0:
+        raise RuntimeError("gvh_c12 corpus failed: " + p.stderr[-2000:])
+    creqs = [json.loads(l) for l in p.stdout.split("\n") if l.strip()]
+    for r in creqs:
+        r.pop("tag", None)
+    canswers = run_pairs(creqs)
+    usable = [(r, a) for r, a in zip(creqs, canswers) if not a.get("error") and not a.get("odd")]
+    chk.extra["natives_corpus"] = {"packages": len(creqs), "usable": len(usable),
+                                   "skipped": [(r["ip"], a.get("error") or a.get("odd")) for r, a in zip(creqs, canswers)
+                                               if a.get("error") or a.get("odd")][:20]}
+    if len(usable) < 40:
+        raise RuntimeError("natives corpus: only %d usable packages" % len(usable))
+    tie("natives", [r for r, _ in usable], [a for _, a in usable], None)
+
+    # the real parseAndAugment (file selection, parsing, call order, `delete(overrides, "init")`) vs the hook sequence
+    tmp = C.scratch("c12")
+    try:
+        p = C.run_gvh(["caller", C.REPO, os.path.join(C.REPO, "compiler", "natives", "src"), tmp], name="gvh_c12")
+    finally:
+        import shutil
+        shutil.rmtree(tmp, ignore_errors=True)
+    if p.returncode != 0:
+        raise RuntimeError("gvh_c12 caller failed: " + p.stderr[-2000:])
+    crs = [json.loads(l) for l in p.stdout.split("\n") if l.strip()]
+    if len([r for r in crs if not r.get("error")]) < 30:
+        raise RuntimeError("caller tie: too few packages: %s" % [r.get("error") for r in crs][:5])
+    for r in crs:
+        if r.get("error"):
+            continue
+        chk.add_case("parseAndAugment-sequence", r["ip"], kindkey="tie:parseAndAugment-sequence")
+        if not r["same"]:
+            a, b = "\n".join(r["a"]), "\n".join(r["b"])
+            if "func init()" in b and a.count("func init()") < b.count("func init()"):
+                chk.add_mismatch("parseAndAugment-sequence", "natives package %s + synthetic original with func init" % r["ip"],
+                                 "%d init functions" % a.count("func init()"), "%d init functions" % b.count("func init()"),
+                                 signature="C12 original init function removed")
+            chk.add_tie_break("parseAndAugment-sequence", r["ip"], a[:1500], b[:1500])
+    chk.extra["parseAndAugment_sequence_packages"] = len(crs)
+
     # property-level oracle: expectation from the generator's own description; type-check of consistent pairs
     ntriv = 0
     for c, r, a in zip(cases, reqs, answers):
@@ -940,8 +999,9 @@ def run(tier, seed):
             chk.add_case("merged-package-type-checks", json.dumps(r), nontrivial=nontrivial, kindkey="oracle:type-check")
             if a["tc_after"] != "ok":
                 sig = None
-                if "!" in a["consts_after"] and "!" not in a["consts_before"]:
-                    sig = const_signature(a["consts_before"], a["consts_after"], a["tc_after"])
+                if "init expr" in a["tc_after"] and info["removed_in_const_group"]:
+                    # a const group lost a spec / a name and go/types complains about initialisers of that group only
+                    sig = "C12 const-group spec-removed later-implicit-specs-lose-initialiser"
                 chk.add_mismatch("merged-package-type-checks", json.dumps(r), a["tc_after"], "ok",
                                  signature=sig or "C12 merged-package-type-error")
     chk.extra["nontrivial_generated_cases"] = ntriv
